@@ -283,13 +283,144 @@ SPELLINGS = ("list", "bare")
 SHARINGS = ("none", "pattern", "history")
 
 
+# ---- wide MIXED alphabets: "mixed/<n>/<seed>/<pct>" ---------------------------------------------
+# n pairwise disjoint atoms of which about pct % are user-defined Predicate OBJECTS (an interval of integers, the strings
+# with a prefix, the tuples with a tag: each accepts MANY items) and the others plain values (strings, integers, tuples:
+# the engine wraps them in Identity).  The property allows any pairwise-disjoint predicates; how the engine finds the
+# applicable edge among many (scan, index, sort) must not matter.  The item the sequences use for atom k is one of the
+# items atom k accepts (for a Predicate atom it differs with the seed), atom n+1.. is foreign to every atom.
+# These names are understood by sym_of / leaf_of / unsym only: they are NOT members of ALPHABETS (the streams that draw
+# from ALPHABETS keep their meaning).
+
+_PRED_CLASSES = {}
+
+
+def _pred_classes():
+    if not _PRED_CLASSES:
+        from codelimit.common.gsm.predicate.Predicate import Predicate
+
+        class Span(Predicate):
+            """the integers lo <= i < hi"""
+
+            def __init__(self, lo, hi):
+                self.lo, self.hi = lo, hi
+
+            def accept(self, item):
+                return type(item) is int and self.lo <= item < self.hi
+
+            def __eq__(self, other):
+                return isinstance(other, Span) and (self.lo, self.hi) == (other.lo, other.hi)
+
+            def __hash__(self):
+                return hash((self.lo, self.hi))
+
+            def __repr__(self):
+                return "Span(%d, %d)" % (self.lo, self.hi)
+
+        class Prefixed(Predicate):
+            """the strings that start with the prefix"""
+
+            def __init__(self, prefix):
+                self.prefix = prefix
+
+            def accept(self, item):
+                return isinstance(item, str) and item.startswith(self.prefix)
+
+            def __eq__(self, other):
+                return isinstance(other, Prefixed) and self.prefix == other.prefix
+
+            def __hash__(self):
+                return hash(self.prefix)
+
+            def __repr__(self):
+                return "Prefixed(%r)" % self.prefix
+
+        class Tagged(Predicate):
+            """the tuples whose first component is the tag"""
+
+            def __init__(self, tag):
+                self.tag = tag
+
+            def accept(self, item):
+                return isinstance(item, tuple) and len(item) > 0 and item[0] == self.tag
+
+            def __eq__(self, other):
+                return isinstance(other, Tagged) and self.tag == other.tag
+
+            def __hash__(self):
+                return hash(("Tagged", self.tag))
+
+            def __repr__(self):
+                return "Tagged(%r)" % (self.tag,)
+
+        _PRED_CLASSES.update(Span=Span, Prefixed=Prefixed, Tagged=Tagged)
+    return _PRED_CLASSES
+
+
+def is_mixed(alphabet):
+    return isinstance(alphabet, str) and alphabet.startswith("mixed/")
+
+
+@functools.lru_cache(maxsize=64)
+def _mixed_plan(alphabet):
+    """-> {atom k: (kind, item of the sequences)}; kind in lit-str / lit-int / lit-tuple / span / prefixed / tagged"""
+    import random
+    _, n, seed, pct = alphabet.split("/")
+    n, pct = int(n), int(pct)
+    rnd = random.Random("mixed/%s" % seed)
+    ks = list(range(1, n + 1))
+    npred = 0 if pct == 0 else n if pct >= 100 else max(1, min(n - 1, round(n * pct / 100.0)))
+    preds = set(rnd.sample(ks, npred))
+    plan = {}
+    for k in ks:
+        if k in preds:
+            kind = rnd.choice(("span", "prefixed", "tagged"))
+            j = rnd.randrange(50)
+            item = {"span": -100 * k - 50 + j, "prefixed": "p%d_%d" % (k, j), "tagged": ("t%d" % k, j)}[kind]
+        else:
+            kind = rnd.choice(("lit-str", "lit-str", "lit-int", "lit-tuple"))
+            item = {"lit-str": "w%d" % k, "lit-int": k, "lit-tuple": ("v", k)}[kind]
+        plan[k] = (kind, item)
+    return plan
+
+
+def mixed_leaf(alphabet):
+    """atom number -> the value written in the PATTERN (a plain value or a Predicate object, a new one per use)"""
+    plan = _mixed_plan(alphabet)
+
+    def leaf(k):
+        kind, item = plan[k]
+        if kind == "span":
+            return _pred_classes()["Span"](-100 * k - 50, -100 * k)
+        if kind == "prefixed":
+            return _pred_classes()["Prefixed"]("p%d_" % k)
+        if kind == "tagged":
+            return _pred_classes()["Tagged"]("t%d" % k)
+        return item
+    return leaf
+
+
+def leaf_of(alphabet):
+    return mixed_leaf(alphabet) if is_mixed(alphabet) else sym_of(alphabet)
+
+
 def sym_of(alphabet):
+    if is_mixed(alphabet):
+        plan = _mixed_plan(alphabet)
+        return lambda k: plan[k][1] if k in plan else ("item", k)
     items = ALPHABETS[alphabet]
     return lambda k: items[k - 1] if k <= len(items) else ("item", k)
 
 
 def unsym(alphabet, item):
     """the atom number of an item of the alphabet (inverse of sym_of)"""
+    if is_mixed(alphabet):
+        for k, (kind, x) in _mixed_plan(alphabet).items():
+            if type(x) is type(item) and x == item:
+                return k
+        if isinstance(item, tuple) and len(item) == 2 and item[0] == "item":
+            return item[1]
+        raise ValueError("not an item of alphabet %s: %r" % (alphabet, item))
     items = ALPHABETS[alphabet]
     for i, x in enumerate(items):
         if type(x) is type(item) and x == item:
@@ -309,7 +440,7 @@ def build_expr(r, alphabet="letters", spelling="list", cache=None, leaf=None):
     from codelimit.common.gsm.operator.Optional import Optional
     from codelimit.common.gsm.operator.Union import Union
     from codelimit.common.gsm.operator.ZeroOrMore import ZeroOrMore
-    sym = leaf or sym_of(alphabet)
+    sym = leaf or leaf_of(alphabet)
     bare = spelling == "bare"
 
     def seq(r):
@@ -340,7 +471,7 @@ def build_expr(r, alphabet="letters", spelling="list", cache=None, leaf=None):
 
 def show_expr(r, alphabet="letters", spelling="list", leaf=None):
     """Python source of what build_expr makes (leaf: code -> source text of the leaf)"""
-    sym = sym_of(alphabet)
+    sym = leaf_of(alphabet)
     bare = spelling == "bare"
 
     def items(r):
@@ -540,3 +671,55 @@ def blowup_words(rnd, family, k, n):
             seen.add(tuple(w))
             uniq.append(w)
     return r, uniq
+
+
+# ---- wide patterns over wide alphabets ----------------------------------------------------------
+
+def union_all(rs, balanced=True):
+    rs = list(rs)
+    if len(rs) == 1:
+        return rs[0]
+    if balanced:
+        m = len(rs) // 2
+        return ("u", union_all(rs[:m], True), union_all(rs[m:], True))
+    r = rs[0]
+    for x in rs[1:]:
+        r = ("u", r, x)
+    return r
+
+
+def wide_rx(rnd, n, m, flat=False):
+    """a small random tree whose leaves are atoms of 1..n, some of them replaced by a union of m different atoms of 1..n
+    (left-nested up to 64 wide, balanced beyond: the engine's construction recurses over the nesting); flat: no repetition
+    operator (the engine's subset construction takes seconds for a repetition of a union of 100 atoms)"""
+    shape = random_rx(rnd, rnd.randint(1, 5))
+    while flat and any(t[0] in ("s", "p") for t in subtrees(shape)):
+        shape = random_rx(rnd, rnd.randint(1, 3))
+    wide = [0]
+
+    def go(r):
+        if r[0] == "a":
+            if rnd.random() < 0.6 or not wide[0]:
+                wide[0] += 1
+                ks = rnd.sample(range(1, n + 1), min(n, rnd.choice((m, m, max(2, m // 2)))))
+                return union_all([("a", k) for k in ks], balanced=len(ks) > 64 or rnd.random() < 0.5)
+            return ("a", rnd.randint(1, n))
+        return (r[0],) + tuple(go(x) for x in r[1:])
+    return go(shape)
+
+
+def walk_word(rnd, P, n, foreign, noise=0.0):
+    """a sequence of at most n items that stays inside the language of the position automaton P as long as it can"""
+    w = []
+    cur = None
+    while len(w) < n:
+        cand = P.first if cur is None else set().union(*[P.follow.get(p, ()) for p in cur])
+        syms = sorted({P.pos[p] for p in cand})
+        if not syms:
+            break
+        x = foreign if noise and rnd.random() < noise else rnd.choice(syms)
+        w.append(x)
+        cur = {p for p in cand if P.pos[p] == x}
+        if not cur:
+            break
+    return w
